@@ -8,8 +8,8 @@ META = {
     "rule": "(1) sweep: generic messages with EVERY request-data length 0..(connection size - overhead) on the 500-byte connection and 0..600 plus "
     "every length in the last 40 before the limit on the 4000-byte one, connected, UCMM and Unconnected Send, for session handles and "
     "connection ids granted by the target from {1, 0x80, 0xFF, 0x100, 0xFFFF, 0x10000, 0x7FFFFFFF, 0x80000000, 0xFFFFFFFF, values with "
-    "zero bytes}; register / unregister / list-identity frames; (2) the shared scenario corpus (uploads, every read/write packet kind "
-    "on every controller personality and connection size, lifecycle calls under every target policy, SLC reads/writes); (3) every frame of the C10 call histories (depth 3, one transport fault at every I/O index) for three drivers x three policies. Oracle: a "
+    "zero bytes, connection id 0}; register / unregister / list-identity frames; (2) the shared scenario corpus (uploads, every read/write packet kind "
+    "on every controller personality and connection size, lifecycle calls under every target policy, SLC reads/writes); (3) every frame of the C10 call histories (depth 3, one transport fault at every I/O index) for three drivers x three policies; (4) the corpus again with every send() accepting only 3/4, 1/2 or one byte of what is offered (short writes). Oracle: a "
     "strict independent parser (vmc/ref/wire.py, run inside the target) accepts every frame: one frame per message written to the "
     "socket, header length == bytes that follow, the operation's command, the granted session handle (0 only before registration), "
     "zero status/options, 8-byte context, two-item common packet with exact item lengths, connection address item holding the "
